@@ -9,7 +9,7 @@ use libfuzzer_sys::fuzz_target;
 
 fn decode(data: &[u8]) -> Option<SeqCase> {
     let mut u = Unstructured::new(data);
-    let hmode = ALL_HMODES[u.int_in_range(0..=6usize).ok()?];
+    let hmode = ALL_HMODES[u.int_in_range(0..=8usize).ok()?];
     let capacity = *u.choose(&[0u32, 1, 2, 5, 11, 16, 20, 43, 64, 100]).ok()?;
     let facade = match u.int_in_range(0..=3u8).ok()? {
         0 => Facade::Guarded,
